@@ -595,6 +595,53 @@ func c17Body(o c17Opts) func() {
 	}
 }
 
+// c17FrozenBody: a session is lost and the server process then freezes (its threads stop, its listening socket stays
+// open): every rebuild attempt connects and then waits for a handshake answer that never comes. "Calls made in
+// between fail with an error rather than hang": GetStream is a local operation and must return at once - for the
+// lost pool with an error, for the healthy one with a stream - also while a rebuild attempt is in progress.
+func c17FrozenBody() func() {
+	return func() {
+		w := newHRWorld(2, vrt.Second)
+		t0 := vrt.GoProc("lose-and-freeze", 2, func() {
+			ss := w.serverSessions(w.oldL)
+			if len(ss) > 0 {
+				ss[0].Close()
+			}
+		})
+		vrt.WaitThreads(t0)
+		vrt.WaitIdle(0)
+		vrt.KillProc(2)
+		slowest := int64(0)
+		calls, errs := 0, 0
+		tr := vrt.GoProc("callers", 1, func() {
+			for i := 0; i < 12; i++ {
+				for pool := 0; pool < 2; pool++ {
+					w.sm.count = uint64(pool*sessionRoundRobinThreshold) + 1
+					a := vrt.VNow()
+					st, err := w.sm.GetStream()
+					if d := vrt.VNow() - a; d > slowest {
+						slowest = d
+					}
+					calls++
+					if err != nil {
+						errs++
+					} else if st == nil {
+						vrt.Failf("nil-stream", "GetStream returned (nil, nil)")
+					} else {
+						w.sm.PutBack(st)
+					}
+				}
+				vrt.Sleep(250 * ms)
+			}
+		})
+		vrt.WaitThreads(tr)
+		if slowest > int64(100*ms) {
+			vrt.Failf("call-hangs", "a GetStream call took %d virtual ms while the replacement of a lost session was being established with a server that does not answer (it must return at once)", slowest/1e6)
+		}
+		vrt.Outcome(fmt.Sprintf("calls=%d errs=%d slowest=%dms", calls, errs, slowest/1e6))
+	}
+}
+
 func TestVerif_C17(t *testing.T) {
 	if os.Getenv("VERIF_SWEEPLOG") != "" {
 		sweepLog = map[string]int{}
@@ -618,5 +665,6 @@ func TestVerif_C17(t *testing.T) {
 		mk(c17Opts{name: "close-manager-idle", n: 2, lose: "none", closeSM: true, traffic: true}, 1, 2),
 		mk(c17Opts{name: "close-manager-during-rebuild", n: 1, lose: "server-session", loseInSetup: true, closeSM: true, closeAfter: 1001 * ms, racy: true}, 1, 2),
 		mk(c17Opts{name: "loss-after-failed-hot-restart", n: 2, lose: "server-session", failedHR: true, traffic: true}, 1, 2),
+		{Name: "lost-session-server-frozen-callers", Bound: 1, BoundT: 2, Body: c17FrozenBody(), Live: true},
 	})
 }
